@@ -67,6 +67,29 @@ def _filter_duplicate_functions(
     ]
 
 
+_NESTED_DECLARATIONS = ("function_declaration", "generator_function_declaration", "class_declaration")
+
+
+def _nested_declaration_spans(node: Node) -> list[tuple[tuple[int, int], tuple[int, int]]]:
+    """Start and end points of the function and class declarations nested below a node."""
+    spans = []
+    for child in node.children:
+        if child.type in _NESTED_DECLARATIONS:
+            spans.append((child.start_point, child.end_point))
+        else:
+            spans.extend(_nested_declaration_spans(child))
+    return spans
+
+
+def _within(
+    operation: InputOperation | OutputOperation,
+    spans: list[tuple[tuple[int, int], tuple[int, int]]],
+) -> bool:
+    """Whether an operation (1-based line, 0-based column) lies inside one of the spans."""
+    point = (operation.line - 1, operation.column)
+    return any(start <= point < end for start, end in spans)
+
+
 def _find_function_body(func_node: Node) -> Node | None:
     """Find the statement_block (body) of a function."""
     return next(
@@ -186,7 +209,10 @@ class TypeScriptFunctionAnalyzer(TypeScriptBaseAnalyzer):
         """Detect INPUT and OUTPUT operations in function body."""
         if body_node is None:
             return [], []
+        # Operations inside a nested function or class declaration belong to that declaration
+        # (it is analyzed on its own), not to the function whose body contains it
+        nested = _nested_declaration_spans(body_node)
         return (
-            self._input_detector.find_inputs(body_node),
-            self._output_detector.find_outputs(body_node),
+            [op for op in self._input_detector.find_inputs(body_node) if not _within(op, nested)],
+            [op for op in self._output_detector.find_outputs(body_node) if not _within(op, nested)],
         )
